@@ -59,6 +59,21 @@ def dispatch (fn : String) (args : List String) (impl : String) : Option Verdict
           some { model := model, spec := some spec, reason := why }
       | _ => some { model := "BADREQ" }
     | _, _, _ => some { model := "BADARGS" }
+  -- `rot`: round robin through the real handler with refused requests in between. What the property demands is decided
+  -- outright: the k-th ADMITTED request is served by target k mod n (`round_robin_strict`), a refused one gets 403 and
+  -- takes no turn.
+  | "rot", [n, _mode, sq] =>
+    match n.toNat? with
+    | some n =>
+      let rec go (cs : List Char) (k : Nat) (acc : List String) : List String :=
+        match cs with
+        | [] => acc.reverse
+        | c :: rest =>
+          if c == 'b' then go rest k ("403:-" :: acc)
+          else go rest (k + 1) (s!"200:{k % n}" :: acc)
+      let m := ",".intercalate (go sq.toList 0 [])
+      some { model := m, spec := some (impl == m), reason := "rotation-or-refusal-differs" }
+    | none => some { model := "BADARGS" }
   | "lb", [mode, n, _threads, _picks, seed] =>
     match n.toNat?, seed.toNat? with
     | some n, some seed =>
